@@ -187,9 +187,16 @@ def r1(ctx):
             ok = lv is not None and len(ranges) == 1 and norm(ranges[0].args[0]) == lv and len(dv) == (3 if kind == "map" else 2)
             ctx.check(ok, "C13.R1", rfi, "%s: tagged length, then `length` elements through deserialize_value" % rname, witness=[norm(c) for c in dv])
             if kind == "map":
+                # by value: the subscript of the one store is the first value decoded in the iteration, the stored value the second
+                # (either may go through a temporary), and the key is decoded first
                 st = [n for n in walk_own(rfi.node) if isinstance(n, ast.Assign) and isinstance(n.targets[0], ast.Subscript)]
-                kd = [n for n in walk_own(rfi.node) if isinstance(n, ast.Assign) and n.value in dv[1:]]
-                ok = len(st) == 1 and len(kd) == 2 and norm(st[0].targets[0].slice) == norm(kd[0].targets[0]) and norm(st[0].value) == norm(kd[1].targets[0]) and before(rfi, kd[0], kd[1])
+                ok = len(st) == 1 and len(dv) == 3
+
+                def holds(e, call):
+                    return e is call or (isinstance(e, ast.Name) and isinstance(call._parent, ast.Assign) and len(call._parent.targets) == 1
+                                         and norm(call._parent.targets[0]) == e.id and before(rfi, call, st[0]))
+                # (the right-hand side of a store is evaluated before its subscript: a key decoded in place would be read *after* the value)
+                ok = ok and isinstance(st[0].targets[0].slice, ast.Name) and holds(st[0].targets[0].slice, dv[1]) and holds(st[0].value, dv[2]) and before(rfi, dv[1], dv[2])
                 ctx.check(ok, "C13.R1", rfi, "map reader: first decoded value is the key, second the value", witness=[norm(s) for s in st])
             rets = [n for n in walk_own(rfi.node) if isinstance(n, ast.Return)]
             ctor = {"map": "{}", "seq": "[]", "set": "set("}[kind]
@@ -251,9 +258,15 @@ def r1(ctx):
     sa = calls_named(des, "setattr")
     ok = len(dc) == 2 and len(loops) == 1 and norm(loops[0].iter) == "range(%s)" % norm(dc[0]._parent.targets[0]) and len(sa) == 1
     if ok:
+        # by value: the attribute name is self._fields[<loop index>] and the value is the second decoded value, each through a
+        # temporary or in place
+        from .common import sym_text as _st
         i = norm(loops[0].target)
-        fdef = [n for n in loops[0].body if isinstance(n, ast.Assign) and norm(n.value) == "self._fields[%s]" % i]
-        ok = len(fdef) == 1 and norm(sa[0].args[0]) == "self" and norm(sa[0].args[1]) == norm(fdef[0].targets[0]) and sa[0].args[2] is dc[1]
+        dn = cfg_of(des).node_of(sa[0])
+        val = sa[0].args[2] if len(sa[0].args) == 3 else None
+        via_tmp = isinstance(val, ast.Name) and isinstance(dc[1]._parent, ast.Assign) and norm(dc[1]._parent.targets[0]) == val.id and before(des, dc[1], sa[0])
+        ok = len(sa[0].args) == 3 and norm(sa[0].args[0]) == "self" and _st(des, sa[0].args[1], dn) == "self._fields[%s]" % i and (val is dc[1] or via_tmp) \
+            and any(p is loops[0] for p in _parents_of(sa[0], des.node))
     ctx.check(ok, "C13.R1", des, "Serializable.deserialize: field count, then setattr(self, _fields[i], value) in order", witness=[norm(c) for c in dc + sa])
     rets = [norm(n.value) for n in walk_own(des.node) if isinstance(n, ast.Return)]
     ctx.check(rets == ["self"], "C13.R1", des, "deserialize returns the populated instance", witness=rets)
@@ -377,6 +390,15 @@ def r2(ctx):
         ctx.check(len(guards) == 1, "C13.R2", f, "serialize_int(%s) is preceded by the MAX_BYTES_LENGTH guard" % arg, line=c.lineno)
     mx = ctx.folder.module_attr(ctx.repo.mod(M), "MAX_BYTES_LENGTH")
     ctx.check(isinstance(mx, int) and mx <= INT_RANGE["q"][1], "C13.R2", fi, "MAX_BYTES_LENGTH fits a 64-bit length", witness=mx)
+
+
+def _parents_of(node, stop):
+    out = []
+    p = getattr(node, "_parent", None)
+    while p is not None and p is not stop:
+        out.append(p)
+        p = getattr(p, "_parent", None)
+    return out
 
 
 def _dispatch_calls(sv):
